@@ -187,6 +187,29 @@ theorem dist_bounded (cfg : Dist.Cfg) (T : List Nat) (hnd : T.Nodup) (sched : Li
     (fun _ => rfl) T
   omega
 
+/-- **dist_once_named**: the workers are independent interpreter processes that find the
+Variable and the Lock on the scheduler by the names each of them computes.  If all workers
+compute the same two names - i.e. `_build_name` is a pure function of the writer's value,
+identical in every interpreter - the run is, seen through those names, a run of `Dist`, and
+`dist_once` holds for it. -/
+theorem dist_once_named (cfg : DistN.Cfg) (L V : Nat) (hL : ∀ w, cfg.lockName w = L)
+    (hV : ∀ w, cfg.varName w = V) (sched : List Nat) (hd : (DistN.run cfg sched).deleted = false) :
+    Dist.Once (DistN.proj L V (DistN.run cfg sched)) := by
+  have h := DistN.proj_runFrom cfg L V hL hV sched DistN.init
+  have h' : DistN.proj L V (DistN.run cfg sched) = Dist.run (DistN.toDist cfg) sched := h
+  rw [h']
+  apply dist_once
+  have : (Dist.run (DistN.toDist cfg) sched).deleted = (DistN.run cfg sched).deleted := by rw [← h']; rfl
+  rw [this]; exact hd
+
+/-- … and the hypothesis is needed: when two worker processes disagree on the names (e.g. a
+name derived from a per-process salted `hash()`), sequential first writes already initiate
+two uploads. -/
+theorem dist_names_cex :
+    (DistN.run { kind := fun t => .write (t + 1), worker := fun t => t, varName := fun w => w,
+                 lockName := fun w => w } (List.replicate 16 0 ++ List.replicate 16 1)).creates = 2 := by
+  decide
+
 /-- thread 0 finalises on worker 0; thread 1 writes part 1 on worker 1 -/
 def Dist.lateCfg : Dist.Cfg := { kind := fun t => if t = 0 then .fin else .write 1, worker := fun t => t }
 
